@@ -12,6 +12,7 @@ import itertools
 import os
 import shutil
 import subprocess
+import sys
 import tempfile
 import types
 
@@ -20,12 +21,13 @@ from harness import core
 RULE = ("schedules of 1-6 polls; per poll the child writes chunks (sizes around and far above the 8192-byte read size, on "
         "either stream) whose boundaries fall inside multi-byte characters and between CR and LF, then stays alive or exits "
         "with a status in 0..255 or a negative one (signal); clocks below and above the time limit; invalid UTF-8; "
-        "exhaustive for <= 3 polls over a 5-chunk alphabet. Non-trivial: at least two polls and >= 2 bytes written; "
+        "exhaustive for <= 3 polls over a 5-chunk alphabet; plus real child processes (real capture files, polling and clock) "
+        "writing chunks with delays from none to longer than a polling iteration and ending with a status or a signal. Non-trivial: at least two polls and >= 2 bytes written; "
         "distinct by schedule.")
 ASSUMPTIONS = ["the child's behaviour is its schedule (what has been written by each poll, status, clock); kernel scheduling, "
                "real timing and a child that ignores SIGKILL are not modelled",
-               "the incremental UTF-8 decoder is chunking-independent (hypothesis of C13_exact; CPython's is compared with the "
-               "model's on every schedule)",
+               "the model's incremental UTF-8 decoder is chunking-independent (proved: utf8Decoder_chunkIndependent) and is CPython's "
+               "(compared on every schedule)",
                "PYTHONUTF8=1: the preferred encoding is UTF-8"]
 
 TEXTS = ["abc", "é", "😀x", "l1\r\nl2", "cr\r", "\nlf", "\r\r\n", "日本語", "", "end\n", "x" * 100]
@@ -235,8 +237,82 @@ def shard_corpus():
     return res
 
 
+CHILD = r"""
+import os, sys, time, json
+plan = json.loads(sys.argv[1])
+for fd, hexdata, delay in plan["writes"]:
+    os.write(fd, bytes.fromhex(hexdata))
+    if delay:
+        time.sleep(delay)
+if plan["signal"]:
+    os.kill(os.getpid(), plan["signal"])
+sys.exit(plan["status"])
+"""
+
+
+def real_child_case(rng, res):
+    """A real child process (no scripted Popen, real capture files, real polling and clock): it writes chunks to fd 1 / 2
+    with delays from none to longer than a polling iteration and exits with a status or a signal. Whatever the schedule
+    turned out to be, the record must be the text it wrote (the model: any schedule with these bytes gives the same)."""
+    import in_toto.runlib as rl
+    import json as _json
+    pieces = ["plain", "caf\u00e9 \u65e5\u672c", "line\r\n", "cr\rcr", "\r", "\n", "x" * 9000, "\u00e9" * 4097, "tail\r"]
+    writes = []
+    data = {1: b"", 2: b""}
+    for _ in range(rng.randrange(0, 6)):
+        fd = rng.choice([1, 1, 2])
+        b = rng.choice(pieces).encode("utf8")
+        parts = split_bytes(b, rng, rng.choice([1, 2, 3]))
+        for part in parts:
+            writes.append([fd, part.hex(), rng.choice([0, 0, 0.02, 0.25])])
+            data[fd] += part
+    sig = rng.choice([0, 0, 0, 15, 9])
+    status = rng.choice([0, 1, 3, 255])
+    plan = {"writes": writes, "signal": sig, "status": status}
+    tmp = tempfile.mkdtemp(prefix="verif-c13r-")
+    old_tmp = tempfile.tempdir
+    tempfile.tempdir = tmp
+    try:
+        with contextlib.redirect_stdout(io.StringIO()), contextlib.redirect_stderr(io.StringIO()):
+            try:
+                r = rl.execute_link([sys.executable, "-c", CHILD, _json.dumps(plan)], True, timeout=30)
+                i = {"returned": [str(r["return-value"]), r["stdout"], r["stderr"]]}
+            except Exception as e:  # pylint: disable=broad-except
+                i = {"outcome": type(e).__name__}
+        leftover = sorted(os.listdir(tmp))
+    finally:
+        tempfile.tempdir = old_tmp
+        shutil.rmtree(tmp, ignore_errors=True)
+    exp_status = -sig if sig else status
+    sched = [Ev(data[1], data[2], exp_status, 0.0)]
+    m = core.driver().call({"op": "streams", "N": 8192, "timeout": 30, "sched": [e.as_json() for e in sched]})
+    agreed = i == m
+    case = {"op": "real_child", "plan": {"writes": [[fd, len(h) // 2, dl] for fd, h, dl in writes], "signal": sig, "status": status},
+            "replay_plan": plan}
+    res.case({"family": "real_child", "writes": len(writes), "bytes": len(data[1]) + len(data[2]), "impl": summarise(i)},
+             len(writes) >= 2, agreed, sample_cap=2)
+    res.count("family_real_child")
+    if not agreed:
+        res.fail("disagree", case, {"op": "streams", "impl": summarise(i), "model": summarise(m)})
+    exp = {"returned": [str(exp_status), expected_text(data[1]), expected_text(data[2])]}
+    if i != exp:
+        res.fail("oracle", case, {"why": "recorded output / status of a real child differ from what it wrote / returned",
+                                  "impl": summarise(i), "expected": summarise(exp)})
+    if leftover:
+        res.fail("oracle", case, {"why": "temporary capture file left behind", "leftover": leftover})
+
+
+def shard_real(seed, idx, n):
+    res = core.Result()
+    rng = core.rng_for(seed, "c13", "real", idx)
+    for _ in range(n):
+        real_child_case(rng, res)
+    return res
+
+
 def run(tier, seed):
     shards = [(shard_corpus, ())]
+    shards += [(shard_real, (seed, i, 3 if tier == "quick" else 40)) for i in range(8)]
     maxp = 3 if tier == "quick" else 4
     for n in range(1, maxp + 1):
         for a in ALPHA:
@@ -249,6 +325,21 @@ def run(tier, seed):
 
 
 def replay(case):
+    if case.get("op") == "real_child":
+        import json as _json
+        import in_toto.runlib as rl
+        plan = case["replay_plan"]
+        with contextlib.redirect_stdout(io.StringIO()), contextlib.redirect_stderr(io.StringIO()):
+            try:
+                r = rl.execute_link([sys.executable, "-c", CHILD, _json.dumps(plan)], True, timeout=30)
+                i = {"returned": [str(r["return-value"]), r["stdout"], r["stderr"]]}
+            except Exception as e:  # pylint: disable=broad-except
+                i = {"outcome": type(e).__name__}
+        data = {1: b"", 2: b""}
+        for fd, h, _dl in plan["writes"]:
+            data[fd] += bytes.fromhex(h)
+        return {"impl": summarise(i), "expected": summarise({"returned": [str(-plan["signal"] if plan["signal"] else plan["status"]),
+                                                                              expected_text(data[1]), expected_text(data[2])]})}
     sched = [Ev(bytes.fromhex(e["out"]), bytes.fromhex(e["err"]), e["status"], e["clock"]) for e in case["replay_sched"]]
     i = impl_run(sched, case["timeout"])
     m = core.driver().call({"op": "streams", "N": 8192, "timeout": case["timeout"], "sched": case["replay_sched"]})
